@@ -1023,11 +1023,19 @@ pub fn scenario(st: &State, t: &mut Toks) -> PResult<String> {
         tokio::time::sleep(Duration::from_millis(seed % 20)).await;
         let hold = Duration::from_secs(30);
         let mut fh = Vec::new();
-        let flood = faults.iter().any(|f| f == "flood-no-read" || f == "reset-storm");
+        let flood = faults.iter().any(|f| f == "flood-no-read");
         let slow_fault = faults.iter().any(|f| f == "vanish-before-answer" || f == "announce-leave" || f == "reset-same-port" || f == "unread-then-malformed" || f == "flood-no-read");
+        let mut self_ending = Vec::new();
         for f in faults {
-            fh.push(tokio::spawn(faulty_peer(addr, tls, Arc::clone(&dict), f, hold)));
+            let ends = matches!(f.as_str(), "reset" | "announce-leave" | "partial-hello" | "reset-storm" | "vanish-before-answer" | "reset-midframe");
+            let h = tokio::spawn(faulty_peer(addr, tls, Arc::clone(&dict), f, hold));
+            if ends { self_ending.push(h); } else { fh.push(h); }
             tokio::time::sleep(Duration::from_millis((seed >> 8) % 10)).await;
+        }
+        // the peers that come, misbehave and go have all gone before the second half of the well-behaved clients opens (however busy
+        // the machine is): "opened afterwards" means afterwards
+        for h in self_ending {
+            let _ = tokio::time::timeout(Duration::from_secs(60), h).await;
         }
         tokio::time::sleep(Duration::from_millis(30 + (seed >> 16) % 30)).await;
         if slow_fault {
